@@ -144,6 +144,13 @@ def has_field(r, field):
     return field in r._desc.fields
 
 
+def _field_value(r, field):
+    """Value of a field named by the selector; like attribute access in an expression, it refuses dunder names."""
+    if field.startswith("__"):
+        raise InvalidOperation("Invalid field name: {!r}".format(field))
+    return getattr(r, field, NONE_OBJECT)
+
+
 def field_regex(r, fields, regex):
     """Check a regex against fields of a Record object.
 
@@ -158,7 +165,7 @@ def field_regex(r, fields, regex):
     """
     s_pattern = re.compile(regex)
     for field in fields:
-        fvalue = getattr(r, field, NONE_OBJECT)
+        fvalue = _field_value(r, field)
         if fvalue is NONE_OBJECT:
             continue
 
@@ -187,7 +194,7 @@ def field_equals(r, fields, strings, nocase=True):
         strings_to_check = strings
 
     for field in fields:
-        fvalue = getattr(r, field, NONE_OBJECT)
+        fvalue = _field_value(r, field)
         if fvalue is NONE_OBJECT:
             continue
         if nocase:
@@ -215,7 +222,7 @@ def field_contains(r, fields, strings, nocase=True, word_boundary=False):
         strings_to_check = strings
 
     for field in fields:
-        fvalue = getattr(r, field, NONE_OBJECT)
+        fvalue = _field_value(r, field)
         if fvalue is NONE_OBJECT:
             continue
         if nocase:
